@@ -1301,7 +1301,11 @@ MANIFEST = {
                    "and the tables do not depend on the writer's interleaving (foreign_keys_resolve, writer_never_dies, "
                    "primary_keys_unique, tables_independent_of_writer_schedule). (4) The scanner-level implicit-logging switch: "
                    "with the statement order of UDSScanner.setup() regenerated from the AST every request is recorded exactly "
-                   "when the switch is on (setup_requests_follow_switch). Tied to the code by a correspondence run of the real ECU "
+                   "when the switch is on (setup_requests_follow_switch). (5) The stored request bytes are the wire bytes for every "
+                   "byte string handed to a raw entry point (stored_request_is_wire, over the dynamic parser of C01); the level unlocked "
+                   "by sendKey survives a session read-back that reports the held session and is dropped by one that reports another "
+                   "(readback_same_session_keeps_state, readback_other_session_resets, level_survives_same_session_readback). "
+                   "Tied to the code by a correspondence run of the real ECU "
                    "+ DBHandler + sqlite file: every request kind x outcome class, cancellation at every await, seeded "
                    "histories; 3 concurrent tasks incl. the real tester-present worker over scripted latencies with cancellations "
                    "and injected OperationalErrors; API-call programs in any order, cut at every awaited statement, two sessions per "
